@@ -21,8 +21,8 @@ def if_then_else(cond, truev, falsev):
     if not isinstance(cond, LinCombBool):
         raise RuntimeError("Wrong type for if_then_else condition")
 
-    if callable(truev): truev = guarded(cond)(truev)()
-    if callable(falsev): falsev = guarded(-cond)(falsev)()        
+    if callable(truev): truev = guarded(cond.lc)(truev)()
+    if callable(falsev): falsev = guarded((~cond).lc)(falsev)()        
 
     if isinstance(truev, list):
         return [if_then_else(cond, truevi, falsevi) for (truevi,falsevi) in zip(truev,falsev)]
